@@ -64,6 +64,10 @@ let vviews c =
 let region_of (x : v) = List.map (fun e -> match e with
   | L [I q; L [I lo; I hi]] -> (nat_of_int q, (nat_of_int lo, nat_of_int hi))
   | _ -> failwith "region") (list_of x)
+(* regions are printed sorted by qudit (a dict has no order worth comparing) *)
+let vregion r =
+  let l = List.map (fun (q, (lo, hi)) -> (int_of_nat q, int_of_nat lo, int_of_nat hi)) r in
+  L (List.map (fun (q, lo, hi) -> L [I q; L [I lo; I hi]]) (List.sort compare l))
 (* a negative bound or qudit is rejected by CycleInterval / CircuitLocation before anything happens *)
 let rec has_neg (x : v) = match x with I i -> i < 0 | A _ -> false | L l -> List.exists has_neg l
 
@@ -98,6 +102,12 @@ let handle line = match parse line with
   | [A "mul"; I n] -> fin (!cur, OkC (c_mul !cur (nat_of_int n)))
   | [A "imul"; I n] -> fin (c_imul !cur (nat_of_int n), OkU)
   | [A "fold"; r] -> if has_neg r then fin (!cur, Err ValueError) else fin (fold !cur (region_of r))
+  | [A "straighten"; r] ->
+    if has_neg r then fin (!cur, Err ValueError) else
+    (match straighten !cur (region_of r) with
+     | (c, SOk (r1, net, sh)) -> cur := c;
+       "S " ^ show (vregion r1) ^ " " ^ string_of_int (int_of_nat net) ^ " " ^ show (vregion sh) ^ " | " ^ show (vcirc c)
+     | (c, SErr e) -> fin (c, Err e))
   | [A "check_region"; r] -> if has_neg r then "0" else if check_region !cur (region_of r) then "1" else "0"
   | [A "views"] -> show (vviews !cur)
   | [A "iter"] -> show (L (List.map vop (iter_ops !cur.cycles)))
